@@ -226,6 +226,7 @@ class ClockShim:
     """stands for the `datetime` module inside flumine modules that read the clock"""
 
     now = None  # SymTime or real datetime
+    local_offset_min = 0  # the process's local UTC offset in minutes (environment): int or Sym; only fromtimestamp() without tz reads it
     timedelta = _dt.timedelta
     date = _dt.date
 
@@ -237,6 +238,17 @@ class ClockShim:
         @classmethod
         def now(cls, tz=None):
             return ClockShim.now
+
+        @classmethod
+        def fromtimestamp(cls, ts, tz=None):
+            """local time of the process when no tz is given: UTC shifted by the (nondeterministic, environment) zone offset"""
+            if tz is not None:
+                return _dt.datetime.fromtimestamp(ts, tz)
+            off = ClockShim.local_offset_min
+            base = cls.utcfromtimestamp(ts)
+            if isinstance(base, SymTime):
+                return SymTime(base.us + (off.n if isinstance(off, Sym) else int(off)) * 60000000)
+            return base + _dt.timedelta(minutes=int(off))
 
         @classmethod
         def utcfromtimestamp(cls, ts):
